@@ -17,6 +17,7 @@ EXPLANATION = (
 RULE = "one obligation per reachable call/assert/cast in the backoff call graph, per conversion fallback, per cap site"
 TRUSTED = ["std Duration::try_from_secs_f64 / f64::powi are total", "rand::Rng::random_range on a non-empty inclusive range"]
 ASSUMPTIONS = ["randomization factor is clamped to [0,1] at construction (checked: C14.FACTOR)"]
+CONFIG_CRATES = ["tower_resilience_retry", "tower_resilience_reconnect"]
 TECHNIQUE = "static analysis of built MIR: panic-freedom over the call graph (panic table + discharged idioms), lossy-cast taint of the attempt parameter, value-flow of conversion fallbacks"
 
 INTERVAL_TRAIT = "tower_resilience_retry::backoff::IntervalFunction"
